@@ -321,6 +321,9 @@ def generate(rng: random.Random, tier: str) -> dict:
             steps.append(["comp", kind, rng.randrange(17), ref])
             val_slots.append(n_pool)
             n_pool += 1
+            if rng.random() < 0.12:
+                # fresh composite value straight to the peer interpreter (it has been hashed here on entering the pool)
+                steps.append(["xi", n_pool - 1, rng.random() < 0.6])
         elif r < 0.63 and (crs_slots or val_slots):
             steps.append([rng.choice(["copy", "pickle"]), rng.choice(crs_slots + val_slots)])
             n_pool += 1
